@@ -133,7 +133,7 @@ CHECKS = {
     },
     "C12": {
         "text": "Every ordered list of 1..3 (thorough 4) distinct texts from an 11-text alphabet round-tripped through add/get/#id/$ref/:from/:to, and "
-        "every operation sequence of length <=3 (thorough 5) over {add 5 lists x 2 names, remove, new instance} with all lookups and "
+        "every operation sequence of length <=3 (thorough 4) over {add 5 lists x 2 names, remove, new instance} with all lookups and "
         "manifest growth/fingerprint checked after every step, on the real PathsManager against models/refstore.Paths.",
         "design": "3 / C12",
         "note": "trusted: models/refstore.Paths; identities are known by construction of the alphabet; texts compared after strip()",
